@@ -3,4 +3,5 @@ pub mod decode;
 pub mod describe;
 pub mod glib;
 pub mod graphreplay;
+pub mod namesreplay;
 pub mod util;
